@@ -815,3 +815,251 @@ pub open spec fn cfg_untaken_ok(uc: Option<&Term<Jmp>>) -> bool {
 pub open spec fn cfg_is_return_end<'a>(st: CfgSt<'a>, rs: NodeIndex) -> bool {
     cfg_is_end(st, rs) && cfg_has_return_jmp(cfg_blk(st.nodes[rs.i as int]).term.jmps@)
 }
+
+// ---- TERMINATION of the worklist loop -------------------------------------------------------------------------------------------
+
+/// the tids of the functions of the program
+pub open spec fn cfg_sub_tids(subs: Map<Tid, Term<Sub>>) -> Set<Tid> {
+    subs.dom().map(|k: Tid| subs[k].tid)
+}
+
+/// the tids of the blocks of the program
+pub open spec fn cfg_blk_tids(subs: Map<Tid, Term<Sub>>) -> Set<Tid> {
+    subs.dom().map(|k: Tid| subs[k].term.blocks@.map_values(|b: Term<Blk>| b.tid).to_set()).flatten()
+}
+
+/// ALL (block tid, function tid) pairs of the program: a FINITE set (blocks x functions), the universe of possible keys of
+/// jump_targets
+pub open spec fn cfg_universe(subs: Map<Tid, Term<Sub>>) -> Set<(Tid, Tid)> {
+    cfg_blk_tids(subs).map(|bt: Tid| cfg_sub_tids(subs).map(|st: Tid| (bt, st))).flatten()
+}
+
+/// first component of the termination measure: the number of pairs of the program that are NOT yet registered
+pub open spec fn cfg_unregistered(subs: Map<Tid, Term<Sub>>, jt: Map<(Tid, Tid), (NodeIndex, NodeIndex)>) -> nat {
+    cfg_universe(subs).difference(jt.dom()).len()
+}
+
+/// PROGRESS of a builder step of the worklist phase: the number of unregistered pairs does not grow, and the worklist is
+/// only extended when it shrinks (an entry is pushed only together with the registration of a new pair)
+pub open spec fn cfg_progress<'a>(a: CfgSt<'a>, b: CfgSt<'a>, subs: Map<Tid, Term<Sub>>) -> bool {
+    &&& cfg_unregistered(subs, b.jt) <= cfg_unregistered(subs, a.jt)
+    &&& cfg_unregistered(subs, b.jt) == cfg_unregistered(subs, a.jt) ==> b.wl == a.wl
+}
+
+// ---- CLOSED FORM (i): the registered pairs are the least set P given by the PROGRAM ---------------------------------------------------
+
+/// the jump `j` of block `b` names the block tid `t`: branch / conditional branch target, an indirect-jump target hint of
+/// the block (for an indirect branch), the return target of a direct or indirect call
+pub open spec fn cfg_jmp_names(b: Term<Blk>, j: Term<Jmp>, t: Tid) -> bool {
+    match j.term {
+        Jmp::Branch(x) => x == t,
+        Jmp::CBranch { target, condition } => target == t,
+        Jmp::BranchInd(e) => exists |h: int| 0 <= h < b.term.indirect_jmp_targets@.len() && #[trigger] b.term.indirect_jmp_targets@[h] == t,
+        Jmp::Call { target, return_ } => return_ == Some(t),
+        Jmp::CallInd { target, return_ } => return_ == Some(t),
+        Jmp::CallOther { description, return_ } => false,
+        Jmp::Return(e) => false,
+    }
+}
+
+/// some jump of block `b` names `t`
+pub open spec fn cfg_blk_names(b: Term<Blk>, t: Tid) -> bool {
+    exists |k: int| 0 <= k < b.term.jmps@.len() && cfg_jmp_names(b, #[trigger] b.term.jmps@[k], t)
+}
+
+/// `key` is the key of a block listed in a function
+pub open spec fn cfg_listed(subs: Map<Tid, Term<Sub>>, key: (Tid, Tid)) -> bool {
+    exists |k: Tid, i: int| #[trigger] cfg_block_at(subs, k, i, subs[k].term.blocks@[i]) && key == (subs[k].term.blocks@[i].tid, subs[k].tid)
+}
+
+/// THE SET P OF (block, function) PAIRS OF A PROGRAM, level n of its inductive definition: every block listed in a function;
+/// and (t, f) whenever (b, f) is a pair and a jump of block b names t.  P is the least set with these two closure properties.
+pub open spec fn cfg_pair_n(subs: Map<Tid, Term<Sub>>, key: (Tid, Tid), n: nat) -> bool
+    decreases n
+{
+    if n == 0 {
+        cfg_listed(subs, key)
+    } else {
+        cfg_pair_n(subs, key, (n - 1) as nat)
+        || exists |b: Term<Blk>| #[trigger] cfg_prog_block(subs, b) && cfg_pair_n(subs, (b.tid, key.1), (n - 1) as nat) && cfg_blk_names(b, key.0)
+    }
+}
+
+pub open spec fn cfg_pair(subs: Map<Tid, Term<Sub>>, key: (Tid, Tid)) -> bool {
+    exists |n: nat| cfg_pair_n(subs, key, n)
+}
+
+/// every registered key is a pair of the program
+pub open spec fn cfg_jt_in_p<'a>(st: CfgSt<'a>, subs: Map<Tid, Term<Sub>>) -> bool {
+    forall |key: (Tid, Tid)| #[trigger] st.jt.contains_key(key) ==> cfg_pair(subs, key)
+}
+
+// ---- CLOSED FORM (ii): the LABELLED edges (node weights instead of node indices) ---------------------------------------------------------------
+
+/// an edge with its end NODES (weights) instead of node indices: independent of the order in which the builder numbers nodes
+pub ghost struct CfgLEdge<'a> { pub src: Node<'a>, pub dst: Node<'a>, pub w: Edge<'a> }
+
+pub open spec fn cfg_ledge<'a>(st: CfgSt<'a>, e: CfgEdge<'a>) -> CfgLEdge<'a> {
+    CfgLEdge { src: st.nodes[e.src.i as int], dst: st.nodes[e.dst.i as int], w: e.w }
+}
+
+/// the labelled edges among the first `m` edges that are NOT Block edges, in edge order
+pub open spec fn cfg_nbl<'a>(st: CfgSt<'a>, m: int) -> Seq<CfgLEdge<'a>>
+    decreases m
+{
+    if m <= 0 { Seq::empty() } else {
+        let r = cfg_nbl(st, m - 1);
+        if st.edges[m - 1].w is Block { r } else { r.push(cfg_ledge(st, st.edges[m - 1])) }
+    }
+}
+
+pub open spec fn cfg_nbl_all<'a>(st: CfgSt<'a>) -> Seq<CfgLEdge<'a>> { cfg_nbl(st, st.edges.len() as int) }
+
+/// THE node a jump to block tid `t` inside function `f` leads to: the start of (the block with tid t, f)
+pub open spec fn cfg_ltarget<'a>(subs: Map<Tid, Term<Sub>>, f: &'a Term<Sub>, t: Tid) -> Node<'a> {
+    Node::BlkStart(cfg_find_block(subs, t)->Some_0, f)
+}
+
+/// the function with tid `t` that has a first block (the callee of a direct call to `t`)
+pub open spec fn cfg_callee<'a>(subs: Map<Tid, Term<Sub>>, t: Tid) -> &'a Term<Sub> {
+    &subs[choose |k: Tid| #[trigger] subs.contains_key(k) && subs[k].tid == t && subs[k].term.blocks@.len() > 0]
+}
+
+/// THE PROPERTY'S EDGES FOR ONE JUMP of block `b` in function `f`, as labelled edges, from the program alone:
+///   branch / conditional branch: ONE Jump(jump, untaken) edge  end of (b, f) -> start of (target, f)
+///   indirect branch:             one such edge per indirect-jump target hint, in order
+///   direct call to an extern symbol / indirect call: ONE ExternCallStub edge end of (b, f) -> start of (return target, f)
+///                                iff there is a return target
+///   direct call to a function of the program that has a first block: CallCombine end of (b, f) -> CallSource node of
+///                                (this call site, callee entry), Call CallSource node -> start of the callee's first block
+///   anything else (call to an unknown target / a function without blocks, CallOther, Return): NO edge
+pub open spec fn cfg_lout_jump<'a>(subs: Map<Tid, Term<Sub>>, ext: Set<Tid>, b: &'a Term<Blk>, f: &'a Term<Sub>, jump: &'a Term<Jmp>, uc: Option<&'a Term<Jmp>>) -> Seq<CfgLEdge<'a>> {
+    let src = Node::BlkEnd(b, f);
+    match jump.term {
+        Jmp::Branch(t) => seq![CfgLEdge { src, dst: cfg_ltarget(subs, f, t), w: Edge::Jump(jump, uc) }],
+        Jmp::CBranch { target, condition } => seq![CfgLEdge { src, dst: cfg_ltarget(subs, f, target), w: Edge::Jump(jump, uc) }],
+        Jmp::BranchInd(e) => Seq::new(b.term.indirect_jmp_targets@.len(),
+            |h: int| CfgLEdge { src, dst: cfg_ltarget(subs, f, b.term.indirect_jmp_targets@[h]), w: Edge::Jump(jump, uc) }),
+        Jmp::Call { target, return_ } =>
+            if ext.contains(target) {
+                match return_ {
+                    Some(r) => seq![CfgLEdge { src, dst: cfg_ltarget(subs, f, r), w: Edge::ExternCallStub(jump) }],
+                    None => Seq::empty(),
+                }
+            } else if cfg_callable(subs, target) {
+                let g = cfg_callee(subs, target);
+                let cs = Node::CallSource { source: (b, f), target: (&g.term.blocks@[0], g) };
+                seq![CfgLEdge { src, dst: cs, w: Edge::CallCombine(jump) },
+                     CfgLEdge { src: cs, dst: Node::BlkStart(&g.term.blocks@[0], g), w: Edge::Call(jump) }]
+            } else {
+                Seq::empty()
+            },
+        Jmp::CallInd { target, return_ } => match return_ {
+            Some(r) => seq![CfgLEdge { src, dst: cfg_ltarget(subs, f, r), w: Edge::ExternCallStub(jump) }],
+            None => Seq::empty(),
+        },
+        Jmp::CallOther { description, return_ } => Seq::empty(),
+        Jmp::Return(e) => Seq::empty(),
+    }
+}
+
+/// THE PROPERTY'S NON-BLOCK, NON-RETURN-LINKAGE EDGES OF ONE PAIR (b, f): those of its jumps, the second one marked with the
+/// first as untaken conditional
+pub open spec fn cfg_lout<'a>(subs: Map<Tid, Term<Sub>>, ext: Set<Tid>, b: &'a Term<Blk>, f: &'a Term<Sub>) -> Seq<CfgLEdge<'a>> {
+    let jmps = b.term.jmps@;
+    if jmps.len() == 0 {
+        Seq::empty()
+    } else if jmps.len() == 1 {
+        cfg_lout_jump(subs, ext, b, f, &jmps[0], None)
+    } else {
+        cfg_lout_jump(subs, ext, b, f, &jmps[0], None) + cfg_lout_jump(subs, ext, b, f, &jmps[1], Some(&jmps[0]))
+    }
+}
+
+/// the call targets are complete: exactly the functions of the program that have a first block (true during all rounds)
+pub open spec fn cfg_ct_complete<'a>(st: CfgSt<'a>, subs: Map<Tid, Term<Sub>>) -> bool {
+    forall |t: Tid| #[trigger] st.ct.contains_key(t) <==> cfg_callable(subs, t)
+}
+
+/// all edges connect existing nodes (a clause of cfg_inv, on its own)
+pub open spec fn cfg_edges_in<'a>(st: CfgSt<'a>) -> bool {
+    forall |e: int| 0 <= e < st.edges.len() ==> (#[trigger] st.edges[e]).src.i < st.nodes.len() && st.edges[e].dst.i < st.nodes.len()
+}
+
+/// the labelled non-Block edges after `n` rounds of the worklist loop started in `st`, by comprehension over the PROCESSED
+/// PAIRS: those of `st`, then for each round the property's edges cfg_lout of the pair (block, function) of the processed
+/// BlkEnd node -- a function of the program and the pair alone
+pub open spec fn cfg_lrounds<'a>(st: CfgSt<'a>, subs: Map<Tid, Term<Sub>>, ext: Set<Tid>, n: int) -> Seq<CfgLEdge<'a>>
+    decreases n
+{
+    if n <= 0 { cfg_nbl_all(st) } else {
+        let s = cfg_wl_steps(st, subs, ext, n - 1);
+        let w = s.nodes[s.wl.last().i as int];
+        cfg_lrounds(st, subs, ext, n - 1) + cfg_lout(subs, ext, cfg_blk(w), cfg_sub(w))
+    }
+}
+
+/// THE RETURN LINKAGE of one (call site, returning block) combination, as labelled edges: a CallReturn node for (call site
+/// of the CallSource node `wc`, (block of the returning BlkEnd node `wr`, returning function)), CrCallStub from the CallSource
+/// node, CrReturnStub from the returning BlkEnd node, ReturnCombine(call term) to the return site `wn`
+pub open spec fn cfg_lret3<'a>(wc: Node<'a>, wr: Node<'a>, wn: Node<'a>, f_ret: &'a Term<Sub>) -> Seq<CfgLEdge<'a>> {
+    let call = wc->CallSource_source;
+    let cr = Node::CallReturn { call, return_: (cfg_blk(wr), f_ret) };
+    seq![CfgLEdge { src: wc, dst: cr, w: Edge::CrCallStub },
+         CfgLEdge { src: wr, dst: cr, w: Edge::CrReturnStub },
+         CfgLEdge { src: cr, dst: wn, w: Edge::ReturnCombine(cfg_call_term(call.0)) }]
+}
+
+/// ... for the first `n` registered return addresses `list` of the returning function (node weights read in state `st`)
+pub open spec fn cfg_lret_n<'a>(st: CfgSt<'a>, f_ret: &'a Term<Sub>, rs: NodeIndex, list: Seq<(NodeIndex, NodeIndex)>, n: int) -> Seq<CfgLEdge<'a>>
+    decreases n
+{
+    if n <= 0 { Seq::empty() } else {
+        cfg_lret_n(st, f_ret, rs, list, n - 1)
+            + cfg_lret3(st.nodes[list[n - 1].0.i as int], st.nodes[rs.i as int], st.nodes[list[n - 1].1.i as int], f_ret)
+    }
+}
+
+/// ... for one returning BlkEnd node: all return addresses registered for its function
+pub open spec fn cfg_lret_node<'a>(st: CfgSt<'a>, rs: NodeIndex) -> Seq<CfgLEdge<'a>> {
+    let f = cfg_sub(st.nodes[rs.i as int]);
+    if st.ra.contains_key(f.tid) { cfg_lret_n(st, f, rs, st.ra[f.tid], st.ra[f.tid].len() as int) } else { Seq::empty() }
+}
+
+/// ... for the first `k` returning BlkEnd nodes of `list`
+pub open spec fn cfg_lreturns_n<'a>(st: CfgSt<'a>, list: Seq<NodeIndex>, k: int) -> Seq<CfgLEdge<'a>>
+    decreases k
+{
+    if k <= 0 { Seq::empty() } else { cfg_lreturns_n(st, list, k - 1) + cfg_lret_node(st, list[k - 1]) }
+}
+
+/// THE RETURN LINKAGE of the whole graph, by comprehension over (returning BlkEnd nodes of `st`, in node order) x (return
+/// addresses registered for the function of the node, in registration order)
+pub open spec fn cfg_lreturns<'a>(st: CfgSt<'a>) -> Seq<CfgLEdge<'a>> {
+    let list = cfg_return_nodes(st.nodes, st.nodes.len() as int);
+    cfg_lreturns_n(st, list, list.len() as int)
+}
+
+/// CLOSED FORM of the final state `st` of a construction cfg_build_steps(ks, s2, n, st, ..)   (lemma_cfg_closed):
+pub open spec fn cfg_closed<'a>(st: CfgSt<'a>, subs: Map<Tid, Term<Sub>>, ext: Set<Tid>, s2: CfgSt<'a>, n: int) -> bool {
+    let s3 = cfg_wl_steps(s2, subs, ext, n);
+    let done = cfg_done_n(s2, subs, ext, n);
+    // (i) the registered pairs are exactly the pairs P of the program (least set containing every listed (block, function)
+    //     and closed under "a jump of the pair's block names block t => (t, same function)") ...
+    &&& forall |key: (Tid, Tid)| #[trigger] st.jt.contains_key(key) <==> cfg_pair(subs, key)
+    //     ... each with ONE BlkStart node, ONE BlkEnd node and ONE Block edge, and there are no other block nodes / Block edges
+    &&& cfg_pairs_inv(st)
+    // (ii) the labelled edges that are not Block edges are, in edge order: for each BlkEnd node in the processing order `done`
+    //      -- an enumeration WITHOUT REPETITION of ALL BlkEnd nodes, i.e. of P -- the property's edges cfg_lout(program, pair);
+    //      then the return linkage cfg_lreturns.  Nothing else.
+    &&& cfg_nbl_all(st) == cfg_lrounds(s2, subs, ext, n) + cfg_lreturns(s3)
+    &&& cfg_nbl_all(s2).len() == 0
+    &&& forall |x: int| 0 <= x < st.nodes.len() && (#[trigger] st.nodes[x]) is BlkEnd ==> exists |j: int| 0 <= j < n && (#[trigger] done[j]).i == x
+    &&& forall |j1: int, j2: int| 0 <= j1 < j2 < n ==> #[trigger] done[j1] != #[trigger] done[j2]
+    &&& forall |j: int| 0 <= j < n ==> (#[trigger] done[j]).i < st.nodes.len() && st.nodes[done[j].i as int] is BlkEnd
+            && st.nodes[done[j].i as int] == cfg_wl_steps(s2, subs, ext, j).nodes[done[j].i as int]
+}
+
+pub open spec fn cfg_closed_post<'a>(st: CfgSt<'a>, subs: Map<Tid, Term<Sub>>, ext: Set<Tid>) -> bool {
+    exists |ks: Seq<Tid>, s2: CfgSt<'a>, n: int| #[trigger] cfg_build_steps(ks, s2, n, st, subs, ext) && cfg_closed(st, subs, ext, s2, n)
+}
